@@ -374,6 +374,10 @@ type vfLimSupport struct {
 	CachedCalls          int    `json:"cached_calls"`           // verifications of an already verified token with the limiter drained
 	CachedOK             int    `json:"cached_ok"`              // of which succeeded (must be all)
 	CachedConsumedTokens bool   `json:"cached_consumed_tokens"` // did they move the limiter (must be false)
+	// traffic on already authenticated sessions: sessions issued by another instance of the deployment (nothing
+	// about them is cached here), one request each, at once, on an instance whose limit is the minimum
+	SessionRequests  int `json:"session_requests"`
+	SessionForwarded int `json:"session_forwarded"` // must be all of them
 	OK                   bool   `json:"ok"`
 	Why                  string `json:"why,omitempty"`
 }
@@ -439,9 +443,38 @@ func vfLimSupportRun(t testing.TB, p *vfLimProvider) vfLimSupport {
 	}
 	s.AcceptedAfterRefill = inst.VerifyToken(tokB) == nil
 
+	// sessions of a previous instance arriving all at once on a fresh one: none may be turned away by the limiter
+	{
+		fresh := vfLimNew(t, p.srv.URL, n)
+		if vfLimWaitInit(fresh, 10*time.Second) {
+			vfLimSetJWKCache(fresh, &vfLimCountingJWKS{set: p.jwks()})
+			s.SessionRequests = 3*n + 5
+			for i := 0; i < s.SessionRequests; i++ {
+				now := time.Now().Unix()
+				tok := p.sign(t, map[string]interface{}{
+					"iss": vfLimIssuer(fresh), "aud": "vf-client", "sub": fmt.Sprintf("vf-user-%d", i), "email": fmt.Sprintf("u%d@example.com", i),
+					"iat": now - 5, "exp": now + 3600, "nonce": fmt.Sprintf("s%d", i),
+				})
+				cookies, err := vfLimMintSession(inst, fmt.Sprintf("u%d@example.com", i), tok) // minted by the OTHER instance
+				if err != nil {
+					continue
+				}
+				req := httptest.NewRequest("GET", "http://app.example.test/page", nil)
+				for _, c := range cookies {
+					req.AddCookie(c)
+				}
+				rec := httptest.NewRecorder()
+				fresh.ServeHTTP(rec, req)
+				if rec.Code == 200 {
+					s.SessionForwarded++
+				}
+			}
+		}
+	}
+
 	s.OK = s.ControlVerified && s.ControlJWKSCalls >= 1 && s.Drained && s.RefusedErr && s.RefusedJWKSCalls == 0 &&
 		!s.RefusedCached && s.RefusedCacheGrowth == 0 && !s.RefusedReplayRecord && s.AcceptedAfterRefill &&
-		s.CachedOK == s.CachedCalls && !s.CachedConsumedTokens
+		s.CachedOK == s.CachedCalls && !s.CachedConsumedTokens && s.SessionRequests > 0 && s.SessionForwarded == s.SessionRequests
 	if !s.OK && s.Why == "" {
 		switch {
 		case !s.ControlVerified || s.ControlJWKSCalls < 1 || !s.Drained:
@@ -450,6 +483,8 @@ func vfLimSupportRun(t testing.TB, p *vfLimProvider) vfLimSupport {
 			s.Why = "a verification was admitted although the limiter held no token"
 		case s.RefusedJWKSCalls != 0 || s.RefusedCached || s.RefusedCacheGrowth != 0 || s.RefusedReplayRecord:
 			s.Why = "a verification refused by the limiter performed verification work"
+		case s.SessionForwarded != s.SessionRequests || s.SessionRequests == 0:
+			s.Why = fmt.Sprintf("requests on already authenticated sessions were limited: %d sessions issued by another instance, one request each on a fresh instance with rateLimit %d, only %d forwarded", s.SessionRequests, n, s.SessionForwarded)
 		case !s.AcceptedAfterRefill:
 			s.Why = "the refused token does not verify once a token is available again (refusal not due to the limiter alone, or it left a trace)"
 		default:
